@@ -143,12 +143,29 @@ func (h *schedHarness) fresh() (*explore.Sched, []func()) {
 		if which == "B" {
 			feed = mkFeed(h.s.FeedB)
 		}
+		if which == "C" {
+			feed = mkFeed(h.s.FeedC)
+		}
 		outs, err := model.Run(feed)
 		h.results[id] = append(h.results[id], runResult{label: fmt.Sprintf("T%d.Run(%s)", id, which), outs: outs, err: err, feed: which})
 	}
 	bodies := []func(){
 		func() { run(0, m, "A"); sc.Yield(); run(0, m, "B") },
-		func() { run(1, m, "B") },
+		func() {
+			second := "B"
+			if h.s.FeedC != nil {
+				second = "C" // another batch size next to thread 0's Runs
+			}
+			if len(h.s.FeedA) > 0 {
+				// first a call that typically fails inside an operator (outcome not judged)
+				func() {
+					defer func() { recover() }()
+					m.Run(mkFeed(h.s.oddFeed()))
+				}()
+				sc.Yield()
+			}
+			run(1, m, second)
+		},
 	}
 	if h.nThreads >= 3 {
 		bodies = append(bodies, func() {
@@ -194,6 +211,9 @@ func (h *schedHarness) judge(x *explore.Exec, sc *explore.Sched) *hx.Violation {
 			if r.feed == "B" {
 				exp = h.s.expB
 			}
+			if r.feed == "C" {
+				exp = h.s.expC
+			}
 			for _, o := range h.s.Outs {
 				got, e := hx.FromG(r.outs[o])
 				if e != nil || got == nil {
@@ -231,10 +251,17 @@ func frozenPass(s *subject) (v *hx.Violation) {
 	if err := arena.Freeze(); err != nil {
 		hx.HarnessError("mprotect failed: %v", err)
 	}
-	for _, which := range []string{"A", "B", "A"} {
+	order := []string{"A", "B", "A"}
+	if s.FeedC != nil {
+		order = []string{"A", "B", "C", "A"}
+	}
+	for _, which := range order {
 		f, exp := s.FeedA, s.expA
 		if which == "B" {
 			f, exp = s.FeedB, s.expB
+		}
+		if which == "C" {
+			f, exp = s.FeedC, s.expC
 		}
 		feed := gonnx.Tensors{}
 		for k, t := range f {
@@ -327,6 +354,21 @@ func stressPass(s *subject, goroutines, rounds int) *hx.Violation {
 				f, exp := s.FeedA, s.expA
 				if (g+r)%2 == 1 {
 					f, exp = s.FeedB, s.expB
+				}
+				if s.FeedC != nil && (g+2*r)%3 == 0 {
+					f, exp = s.FeedC, s.expC // another batch size running next to A and B
+				}
+				if len(s.FeedA) > 0 && (g*7+r)%5 == 0 {
+					// a call that typically fails inside an operator (symbolic dims let it through the signature
+					// check); its outcome is not judged, what it leaves behind for the overlapping Runs is
+					func() {
+						defer func() { recover() }()
+						bad := gonnx.Tensors{}
+						for k, t := range s.oddFeed() {
+							bad[k] = hx.ToG(t)
+						}
+						m.Run(bad)
+					}()
 				}
 				feed := gonnx.Tensors{}
 				for k, t := range f {
@@ -710,6 +752,9 @@ func c17Subjects(thorough, prepare bool) (subs, expl []*subject) {
 		if err := s.prepare(); err != nil {
 			hx.HarnessError("reference cannot evaluate %s: %v", s.Name, err)
 		}
+		if prepare {
+			s.probeC() // runs the implementation: only in the main check process, never in the cold / global-state ones
+		}
 	}
 	byOp := map[string]*subject{}
 	var order []string
@@ -743,9 +788,9 @@ func checkC17(c *hx.Checker) {
 	if thorough {
 		b2, b3 = 3, 2
 	}
-	c.Rule = fmt.Sprintf("(1) frozen-state pass on %d subjects (every registered operator under every caller-input / initializer role assignment, the compositions, the sample models): weight tensors (header, shape, strides, data) and every repeated scalar field of the model proto are relocated into an mmap arena and mprotect'ed read-only; Run(A), Run(B), Run(A) must complete without a write fault and with the reference outputs. "+
-		"(2) interleaving exploration on %d subjects (per operator the role assignment with the most shared weights; compositions; mlp, scaler, gru): cooperative scheduler with scheduling points at thread start, before GetOperator / Init / ValidateInputs / Apply of every node, between consecutive Runs and at thread end; depth-first enumeration of ALL schedules with <= %d preemptions for 2 threads {Run(A);Run(B)} || {Run(B)} and <= %d preemptions for 3 threads (+ {NewModelFromBytes; Run(A)} on a further model); every thread's outputs must equal the solo result and the shared-state digest must equal the load-time digest after every step. "+
-		"(3) supplementary free-running passes: 16 goroutines x 30 Runs on one shared Model, and 8 goroutines x 10 rounds of NewModelFromBytes+Run, per exploration subject, results compared with the solo result (thorough: the same bodies in a separately built -race binary). "+
+	c.Rule = fmt.Sprintf("(1) frozen-state pass on %d subjects (every registered operator under every caller-input / initializer role assignment, the compositions, the sample models): weight tensors (header, shape, strides, data) and every repeated scalar field of the model proto are relocated into an mmap arena and mprotect'ed read-only; Run(A), Run(B), Run(C = first row of A: another batch size), Run(A) must complete without a write fault and with the reference outputs. "+
+		"(2) interleaving exploration on %d subjects (per operator the role assignment with the most shared weights; compositions; mlp, scaler, gru): cooperative scheduler with scheduling points at thread start, before GetOperator / Init / ValidateInputs / Apply of every node, between consecutive Runs and at thread end; depth-first enumeration of ALL schedules with <= %d preemptions for 2 threads {Run(A);Run(B)} || {Run(failing inside an operator); Run(C = batch-1 feed, or B)} and <= %d preemptions for 3 threads (+ {NewModelFromBytes; Run(A)} on a further model); every thread's outputs must equal the solo result and the shared-state digest must equal the load-time digest after every step. "+
+		"(3) supplementary free-running passes: 16 goroutines x 30 Runs on one shared Model (feeds A, B and the batch-1 feed C interleaved, every fifth Run preceded by a call that fails inside an operator), and 8 goroutines x 10 rounds of NewModelFromBytes+Run, per exploration subject, results compared with the solo result (thorough: the same bodies in a separately built -race binary). "+
 		"(0) global-state pass in a fresh process (nothing warmed up, no self-check): the bytes of every writable package-level symbol of the library inside the check binary (ELF symbol table; %d symbols) are hashed one level deep (map element counts, leading bytes of pointed-to structs and slice backing arrays) before anything runs and after load+Run of every exploration subject (runtime caches and the protobuf descriptor are excluded by name); a change is escalated to 16x150 Runs + 16x60 loads + 80 cold-start processes and reported only if interference is confirmed. "+
 		"(3b) cold-start pass (supplementary): per exploration subject and mode (16 goroutines load+Run / one load then 16 concurrent Runs) fresh processes whose very first use of the library is concurrent; a crash of such a process (e.g. concurrent map writes) or a deviating result is reported. "+
 		"states = scheduling points visited, transitions = thread steps executed; non-trivial = every exploration and frozen case", len(subs), len(expl), b2, b3, nGlobals())
